@@ -11,16 +11,22 @@ func init() { register("C08", checkC08) }
 
 func checkC08(c *Ctx) error {
 	c.Ev = evidence.New("C08", c.Tier, c.Seed, "exploration",
-		"specifications with one or two token rules P B*? T or P B+? T (P literal or class sequence; B a class, '.', an alternation of classes or ~[\\n]; T a literal of 1-3 characters, self-overlapping ones included, whose characters B can match) next to greedy rules (keyword, word, whitespace) whose first characters are disjoint from P's; inputs over the tiny alphabet of P, B, T (terminators are frequent): every string up to a bound, random long ones, unterminated ones. The token stream of the real state machine under the real driver must equal the reference: consume while the rule is viable and stop at the first prefix matching the whole rule (at least one repetition for +?), ERROR if viability is lost first; greedy rules keep longest match. Non-trivial: inputs in which a non-greedy token is produced and the body could have matched the terminator (token shorter than the longest match), or several tokens; distinct by spec+input.")
+		"specifications with one or two token rules P B*? T or P B+? T (P literal or class sequence; B a class, '.', an alternation of classes or ~[\\n]; T a literal of 1-3 characters, self-overlapping ones included, whose characters B can match) next to greedy rules (keyword, word, whitespace); in half of the specifications further greedy rules share the non-greedy rule's prefix (a token that is exactly the prefix, the prefix plus one character, the prefix followed by a greedy run over the body's characters) or the prefix is a letter of the word rule; inputs over the tiny alphabet of P, B, T (terminators are frequent): every string up to a bound, random long ones, unterminated ones. The token stream of the real state machine under the real driver must equal the reference: consume while the rule is viable and stop at the first prefix matching the whole rule (at least one repetition for +?), ERROR if viability is lost first; greedy rules keep longest match. Non-trivial: inputs in which a non-greedy token is produced and the body could have matched the terminator (token shorter than the longest match), or several tokens; distinct by spec+input.")
 	c.Ev.Assumptions = []string{
-		"rule shape and companions restricted as in the statement; interplay of a non-greedy rule with another rule sharing its first characters is not judged",
+		"rule shape restricted as in the statement",
+		"inputs on which a non-greedy rule is complete while another rule of the mode is still alive (could accept the same or a longer text) are not judged: the statement fixes where the non-greedy token ends and that greedy rules keep their longest match, not which of the two gives way (counted as inputs_outside_the_property); a greedy rule accepting earlier, inside the run of the non-greedy rule, is judged",
 	}
 	return runLexCheck(c, &lexCheckSpec{
 		id: "C08",
 		draw: func(d *lexDrawer, r *rng.R) *LCase {
 			for try := 0; try < 200; try++ {
-				s, a := specgen.NonGreedyLexer(r)
-				lc := newLCase(s, a, "non-greedy", false)
+				inter := r.Chance(1, 2)
+				s, a := specgen.NonGreedyLexerWith(r, inter)
+				origin := "non-greedy"
+				if inter {
+					origin = "non-greedy-with-rules-sharing-the-prefix"
+				}
+				lc := newLCase(s, a, origin, false)
 				d.mu.Lock()
 				d.drawn++
 				d.mu.Unlock()
@@ -33,6 +39,10 @@ func checkC08(c *Ctx) error {
 		},
 		nBatches: [2]int{2, 30}, nCLI: [2]int{1, 4}, per: 30,
 		nInputs: [2]int{300, 1500}, exhLen: [2]int{6, 8},
+		// a non-greedy rule complete while another rule is still alive: the
+		// statement fixes where the non-greedy rule ends and that greedy rules
+		// keep their longest match, not which of the two gives way
+		skipCase: func(ref *lexref.Result) bool { return ref.NGInterplay },
 		nontrivial: func(lc *LCase, in []byte, ref *lexref.Result) bool {
 			return len(ref.Toks) >= 3
 		},
